@@ -44,4 +44,30 @@ ENTRIES.update({
                     "(client) / notice of disconnection with PROTOCOL_ERROR (server). Not proved (level 'other'): that the decoders below the envelope raise only ValueError / NotImplementedError / NotEnougData / RecursionError - "
                     "that contract is trusted and exercised by the bounded sweep (malformed interiors, 1500-deep filters, every single-octet header corruption, every chunking)."},
 })
+_TXT_NOTE = ("The parsers are regex + str.split/strip code; z3/cvc5 do not decide their string constraints reliably (DESIGN.md 3.7), so the contract is *evaluated* on a stated bounded-exhaustive "
+             "input set and labelled bounded; the regex parts are exact decisions on the automaton of the pattern as parsed by the interpreter that runs the code. Trusted: textbook semantics of the sre opcodes in use; "
+             "the RFC transcriptions (reference patterns, sentence generators) are the oracle.")
+ENTRIES.update({
+    "C13": {"category": "other", "technique": "contract from_string(str(f)) == f stated on the real functions; per-octet escape map checked exhaustively over all 256 octets; tree round trips bounded-exhaustive", "note": _TXT_NOTE,
+            "text": "Exhaustive: each of the 256 octets is written as itself (printable, not one of ( ) * \\) or as \\hh and reads back as that octet. Bounded: every leaf kind x every value of length <= 2 (<= 3 thorough) over the 20 octets the parser "
+                    "compares against, alone and nested under and/not, plus wide trees over RFC-valid attribute descriptions with options and OIDs. One listed known finding (attribute + rule literally named 'dn')."},
+    "C14": {"category": "other", "technique": "contract from_string(s) == tree denoted by s, evaluated on grammar derivations generated with their trees; attribute language inclusion exact (automata)", "note": _TXT_NOTE,
+            "text": "About 1200 RFC 4515 sentences per run generated production by production (all assertion kinds, extensible match in both forms with ':dn' in three spellings, substrings with escaped stars, both hex cases, raw UTF-8, "
+                    "options, OIDs, 0-2 tolerated spaces at each tolerated position) together with the tree the derivation denotes; exact check that every RFC 4512 attribute description is accepted."},
+    "C15": {"category": "other", "technique": "exact automata difference L(_ATTRIBUTE_PATTERN) vs RFC 4512 attributedescription; bounded-exhaustive evaluation of the totality / span / self-consistency contract", "note": _TXT_NOTE,
+            "text": "Exact over full Unicode: the compiled attribute pattern accepts nothing outside the RFC 4512 attribute-description language except the listed known finding (one-arc numeric OIDs, pinned by tests). "
+                    "Bounded: all 331,776+ strings of length <= 4 (<= 5 thorough) over a 24-symbol class alphabet (structural characters, NUL, newline, non-ASCII, lone surrogates) and ~35,000 single-character edits of grammar sentences, "
+                    "plus deep nesting: only FilterSyntaxError, span inside the input, accepted results valid and re-parsing to themselves."},
+    "C16": {"category": "other", "technique": "contract T.from_string(str(d)) == d stated on the real classes, evaluated bounded-exhaustively", "note": _TXT_NOTE,
+            "text": "Every field present/absent, name and OID lists of length 0-3, every kind/usage/flag combination, syntax lengths incl. 0, and descriptions / extension values over 28 strings built from the characters the encoder, "
+                    "the un-escaper and the grammar distinguish (quote, backslash, |, literal \\27 / 5c sequences, non-ASCII, spaces, parentheses), one factor at a time plus seeded random combinations."},
+    "C17": {"category": "other", "technique": "exact automata inclusion L(RFC 4512 ABNF) within the prefix language of each compiled description regex; bounded evaluation of field extraction and totality", "note": _TXT_NOTE,
+            "text": "Exact: for ObjectClass, AttributeType (incl. quoted SYNTAX) and DITContentRule every ABNF sentence matches the compiled pattern. Bounded: sentences generated with their denoted field values and 1-3 / 0-2 spaces at every SP / WSP, "
+                    "single vs parenthesised lists, escaped quotes and backslashes, 0-3 extensions; totality (only ValueError) over ~90,000 short strings after structural prefixes and ~70,000 single-character edits."},
+    "C18": {"category": "other", "technique": "decision procedure: no exponential ambiguity in the Glushkov automaton of every pattern the parsers compile (exact); timing replay of refutations; bounded growth probe of the hand-written scanners", "note":
+            "Assumed contract of the dependency: CPython sre is a backtracking matcher whose cost on a pattern without exponential ambiguity is polynomial in the subject length. Patterns are collected from the imported modules and from re.* call sites "
+            "(AST), so new patterns are picked up. Wall-clock is only measured to confirm refutations and in the bounded probe.",
+            "text": "Every compiled pattern (19 on the current tree, incl. inline re.sub/re.match literals) is decided exactly: the product automaton has no strongly connected component with a diagonal and an off-diagonal pair. "
+                    "The asn1 loops carry proved decreases clauses (C07); the filter scanners and receive are probed on ~100 adversarial families at two sizes (bounded)."},
+})
 NOT_APPLICABLE = {}
